@@ -212,7 +212,7 @@ PredictCore(scn) ==
         [disp |-> <<>>, ret |-> PredRet(0),
          cl |-> [PredClient(RejectStatus(rej), "text/plain; charset=utf-8", "", <<>>, [NoEnd EXCEPT !.place = "status"], 1)
                  EXCEPT !.allow = IF RejectStatus(rej) = 405 THEN <<"POST">> ELSE <<>>]]
-    ELSE IF rej = "unknownpath-handler" THEN
+    ELSE IF ToUnknown(rej) THEN
         [disp |-> <<[DefDisp EXCEPT !.kind = "unknown", !.same = TRUE, !.path = "other", !.form = "other", !.proto = "other"]>>,
          ret |-> PredRet(1),
          cl |-> [PredClient(200, "text/plain", "", <<>>, NoEnd, 0) EXCEPT !.raw = TRUE]]
@@ -302,7 +302,7 @@ Drift(scn, obs) ==
                     \cup (IF (pd.herr = 0) = (od.herr = 0) \/ EmptyDeclared(od.frames) THEN {} ELSE {"disp.herr"})
                    ELSE {})
           ELSE {})
-    \cup (IF Precise(scn) /\ scn.cl.rej # "unknownpath-handler" /\ ~(obs.ret.n = 1 /\ EmptyDeclared(obs.disp[1].frames)) THEN
+    \cup (IF Precise(scn) /\ ~ToUnknown(scn.cl.rej) /\ ~(obs.ret.n = 1 /\ EmptyDeclared(obs.disp[1].frames)) THEN
             (IF p.cl.status = obs.cl.status THEN {} ELSE {"cl.status"})
             \cup (IF Rejected(scn) \/ p.cl.ct = obs.cl.ct THEN {} ELSE {"cl.ct"})
             \cup (IF p.cl.end.code = obs.cl.end.code \/ Rejected(scn) THEN {} ELSE {"cl.end.code"})
